@@ -108,7 +108,18 @@ func VerifC18_FailClosed() {
 		if oauths[i] != "" {
 			ann[ingtypes.BackOAuth] = oauths[i]
 		}
-		hostMapper.AddAnnotations(src, hp.Link, ann)
+		// an annotation written on the Service reaches the backend mapper only; auth-url may be
+		// such an annotation while the placement comes from the Ingress
+		hostAnn := ann
+		if urls[i] != "" && nd.Bool("url.declared.on.the.service") {
+			hostAnn = map[string]string{}
+			for k, v := range ann {
+				if k != ingtypes.BackAuthURL {
+					hostAnn[k] = v
+				}
+			}
+		}
+		hostMapper.AddAnnotations(src, hp.Link, hostAnn)
 		backMapper.AddAnnotations(src, hp.Link, ann)
 	}
 
